@@ -167,7 +167,7 @@ func runC06(cfg runCfg) error {
 	}
 	for i := 0; i < cfg.n; i++ {
 		name := fmt.Sprintf("c06-%d-%d", cfg.seed, i)
-		env := envs[[]int{0, 0, 0, 2, 2}[r.Intn(5)]]
+		env := envs[[]int{0, 0, 0, 2, 2, 3, 3}[r.Intn(7)]]
 		limited := r.Intn(3) == 0
 		env.gw.es.MaxRequestsPerQuery = 50
 		env.world.data = genData(r, env.fed, dataOpts{nullProb: 0.1, safeStrings: true})
@@ -177,6 +177,15 @@ func runC06(cfg runCfg) error {
 		var run0 *e2eRun
 		for try := 0; try < 30; try++ {
 			qq, vv, doc := env.genBoundedQuery(r, qo, 300)
+			if env.fx.Name == "shared" && try == 0 && r.Intn(3) == 0 {
+				// two lookups with one insertion point, resolved by two services, under two members of an interface
+				// (same response key for different fields in half of them)
+				k2 := []string{"z", "y"}[r.Intn(2)]
+				qq = "query Op { tools { label ... on Hammer { maker { z: nick } } ... on Gizmo { maker { " + k2 + ": age } } } }"
+				vv = map[string]interface{}{}
+				doc, _ = loadQuery(env.gw.es.MergedSchema, qq)
+				sum.Features["two_lookups_one_insertion_point"]++
+			}
 			if doc == nil {
 				continue
 			}
